@@ -455,6 +455,22 @@ CAMPAIGNS['C04'].append(camp(
     'build', mode='oserror-sweep', nontrivial=nt_rollback_restored, chunk=6,
     follow=1, torn=False, errnos=['EXDEV', 'ENOSPC', 'EACCES'],
     sweep_max={'quick': 10, 'thorough': None}))
+CAMPAIGNS['C13'].append(camp(
+    'c13-mode-switch', 'C13',
+    dict(COMPARISON_HEAVY, p_stepcmp=0.6, n_steps=(3, 6),
+         p_mutate_step=0.25, p_tick0=0.1),
+    'call sites whose comparison mode switches between HASH and METADATA '
+    'from build to build (outputs and reads), combined with touch / stealth '
+    '/ write mutations', post='tag_all:C13'))
+CAMPAIGNS['C14'].append(camp(
+    'c14-chains-sweep', 'C14',
+    dict(NESTED_FAIL, p_chain=0.9, p_mutate_step=0.05, p_clean_step=0.0,
+         n_steps=(2, 4), p_catch=0.9),
+    'chains of nested build_file / subbuild calls, last build mostly an '
+    'unchanged rebuild (cached trees are applied): OSError at every '
+    'pre-commit mutating call index, also followed by a root failure',
+    mode='oserror-sweep', nontrivial=nt_rollback_restored, chunk=6, follow=1,
+    crash_end=True, sweep_max={'quick': 12, 'thorough': None}))
 WIDE_RULE = ('wide builds: one statement builds 130-260 outputs (over '
              'foreign files or previous outputs), so that more than 128 files '
              'are moved aside in one build, then the build fails and is '
